@@ -218,7 +218,9 @@ func (s *socket) onPacket(data *packet.Packet) {
 			return
 		}
 		socket_log.Debug("got ping")
-		s.pingTimeoutTimer.Load().Refresh()
+		if t := s.pingTimeoutTimer.Load(); t != nil {
+			t.Refresh()
+		}
 		s.sendPacket(packet.PONG, nil, nil, nil)
 		s.Emit("heartbeat")
 	case packet.PONG:
@@ -228,7 +230,9 @@ func (s *socket) onPacket(data *packet.Packet) {
 		}
 		socket_log.Debug("got pong")
 		utils.ClearTimeout(s.pingTimeoutTimer.Load())
-		s.pingIntervalTimer.Load().Refresh()
+		if t := s.pingIntervalTimer.Load(); t != nil {
+			t.Refresh()
+		}
 		s.Emit("heartbeat")
 	case packet.ERROR:
 		s.OnClose("parse error")
